@@ -80,6 +80,7 @@ type bAnalysis struct {
 
 type bSite struct {
 	root, fn, op, kind string
+	guard             string // "pkg.Type.field" when the site is inside `if x.field == nil {..}`
 	held              []string
 	path              []string
 }
@@ -293,6 +294,7 @@ type bCtx struct {
 	dflt bool // inside a select that has a default clause
 	sel  bool // inside a select
 	tail []string // functions that run the literal being walked (frames after fn)
+	nilGuard string // innermost enclosing `if x.f == nil` on a field of an analysed struct
 }
 
 func (c *bCtx) fullPath() []string {
@@ -561,7 +563,7 @@ func sleepMillis(e ast.Expr) int {
 }
 
 func (c *bCtx) site(op, kind string, held []string) {
-	c.a.sites = append(c.a.sites, bSite{root: c.root, fn: c.fn.id(), op: op, kind: kind, held: copyHeld(held), path: c.fullPath()})
+	c.a.sites = append(c.a.sites, bSite{root: c.root, fn: c.fn.id(), op: op, kind: kind, guard: c.nilGuard, held: copyHeld(held), path: c.fullPath()})
 }
 
 func (c *bCtx) acquire(lock, mode string, held []string) []string {
@@ -729,6 +731,85 @@ func (c *bCtx) exprCalls(e ast.Expr, held []string) []string {
 	return held
 }
 
+// nilGuardOf: cond is `x.f == nil` with x of an analysed struct type: "pkg.Type.f"
+func (c *bCtx) nilGuardOf(cond ast.Expr) string {
+	b, ok := cond.(*ast.BinaryExpr)
+	if !ok || b.Op != token.EQL {
+		return ""
+	}
+	x, y := b.X, b.Y
+	if id, ok := x.(*ast.Ident); ok && id.Name == "nil" {
+		x, y = y, x
+	}
+	if id, ok := y.(*ast.Ident); !ok || id.Name != "nil" {
+		return ""
+	}
+	sel, ok := x.(*ast.SelectorExpr)
+	if !ok {
+		return ""
+	}
+	owner := deref(c.typeOf(sel.X))
+	if owner.kind != "named" {
+		return ""
+	}
+	return owner.pkg.name + "." + owner.name + "." + sel.Sel.Name
+}
+
+// alwaysSetFields: fields "pkg.Type.f" that every composite literal of Type in the analysed
+// (non-test) files sets and that no statement assigns afterwards: never nil at run time for
+// values built by this code
+func (a *bAnalysis) alwaysSetFields(cands map[string]bool) []string {
+	var out []string
+	var names []string
+	for k := range cands {
+		names = append(names, k)
+	}
+	sort.Strings(names)
+	for _, cand := range names {
+		parts := strings.Split(cand, ".")
+		if len(parts) != 3 {
+			continue
+		}
+		p := a.byName[parts[0]]
+		if p == nil {
+			continue
+		}
+		lits, ok := 0, true
+		for _, f := range p.files {
+			ast.Inspect(f, func(n ast.Node) bool {
+				switch x := n.(type) {
+				case *ast.CompositeLit:
+					if x.Type != nil && exprStr(x.Type) == parts[1] {
+						lits++
+						set := false
+						for _, el := range x.Elts {
+							if kv, isKV := el.(*ast.KeyValueExpr); isKV && exprStr(kv.Key) == parts[2] {
+								if id, isID := kv.Value.(*ast.Ident); !isID || id.Name != "nil" {
+									set = true
+								}
+							}
+						}
+						if !set {
+							ok = false
+						}
+					}
+				case *ast.AssignStmt:
+					for _, l := range x.Lhs {
+						if sel, isSel := l.(*ast.SelectorExpr); isSel && sel.Sel.Name == parts[2] {
+							ok = false // assigned somewhere: not analysed further
+						}
+					}
+				}
+				return true
+			})
+		}
+		if ok && lits > 0 {
+			out = append(out, cand)
+		}
+	}
+	return out
+}
+
 func terminates(list []ast.Stmt) bool {
 	if len(list) == 0 {
 		return false
@@ -891,7 +972,15 @@ func (c *bCtx) stmt(s ast.Stmt, held []string) []string {
 			held = c.stmt(x.Init, held)
 		}
 		held = c.exprCalls(x.Cond, held)
-		h1, t1 := c.branch(x.Body.List, held)
+		var h1 []string
+		var t1 bool
+		if g := c.nilGuardOf(x.Cond); g != "" {
+			sub := *c
+			sub.nilGuard = g
+			h1, t1 = sub.branch(x.Body.List, held)
+		} else {
+			h1, t1 = c.branch(x.Body.List, held)
+		}
 		h2, t2 := held, false
 		if x.Else != nil {
 			switch e := x.Else.(type) {
@@ -1154,7 +1243,7 @@ func genBlocking() (string, string) {
 	b.WriteString("   declares the interface's methods, function literals analysed where they are called or\n")
 	b.WriteString("   handed to a function of these packages, `go` statements are roots with no lock held. *)\n")
 	b.WriteString("From Coq Require Import List String.\nImport ListNotations.\nOpen Scope string_scope.\n\n")
-	b.WriteString("Record bsite := mkBS { bs_root : string; bs_fn : string; bs_op : string; bs_kind : string;\n  bs_held : list string; bs_path : list string }.\n")
+	b.WriteString("Record bsite := mkBS { bs_root : string; bs_fn : string; bs_op : string; bs_kind : string;\n  bs_guard : string; bs_held : list string; bs_path : list string }.\n")
 	b.WriteString("Record ledge := mkLE { le_from : string; le_to : string; le_mode : string; le_fn : string;\n  le_root : string; le_path : list string }.\n\n")
 	fmt.Fprintf(&b, "Definition client_roots : list string := %s.\n", coqStrs(blockingClientRoots))
 	fmt.Fprintf(&b, "Definition missing_roots : list string := %s.\n", coqStrs(missing))
@@ -1163,7 +1252,7 @@ func genBlocking() (string, string) {
 	seen := map[string]bool{}
 	var sites []bSite
 	for _, s := range a.sites {
-		k := s.root + "|" + s.fn + "|" + s.op + "|" + heldKey(s.held)
+		k := s.root + "|" + s.fn + "|" + s.op + "|" + s.guard + "|" + heldKey(s.held)
 		if seen[k] {
 			continue
 		}
@@ -1179,6 +1268,14 @@ func genBlocking() (string, string) {
 		}
 		return sites[i].op+heldKey(sites[i].held) < sites[j].op+heldKey(sites[j].held)
 	})
+	cands := map[string]bool{}
+	for _, s := range sites {
+		if s.guard != "" {
+			cands[s.guard] = true
+		}
+	}
+	b.WriteString("(* struct fields that every composite literal of their type in these packages sets (to something\n   other than nil) and that nothing assigns afterwards: a site with bs_guard = such a field sits\n   inside `if x.field == nil { .. }` and is not reached for values built by this code *)\n")
+	fmt.Fprintf(&b, "Definition always_set_fields : list string := %s.\n\n", coqStrs(a.alwaysSetFields(cands)))
 	b.WriteString("(* operations that may wait for another party, with the locks held when they run *)\n")
 	b.WriteString("Definition blocking_sites : list bsite := [\n")
 	for i, s := range sites {
@@ -1190,7 +1287,7 @@ func genBlocking() (string, string) {
 		for j, h := range s.held {
 			held[j] = h
 		}
-		fmt.Fprintf(&b, "  mkBS %s %s %s %s %s\n    %s%s\n", coqStr(s.root), coqStr(s.fn), coqStr(s.op), coqStr(s.kind), coqStrs(held), coqStrs(s.path), sep)
+		fmt.Fprintf(&b, "  mkBS %s %s %s %s %s %s\n    %s%s\n", coqStr(s.root), coqStr(s.fn), coqStr(s.op), coqStr(s.kind), coqStr(s.guard), coqStrs(held), coqStrs(s.path), sep)
 	}
 	b.WriteString("].\n\n")
 	var keys []string
